@@ -313,3 +313,28 @@ def resolve_local(fn, o):
             return oo
         o = st[0]["val"]
     return o
+
+
+def field_chain(P, fn, o, depth=0):
+    """all 'Struct.field' selections on the way to a pointer (outermost first), following GEP chains and casts"""
+    import re
+    if o.get("k") != "inst" or depth > 8:
+        return []
+    i = fn.insts[o["id"]]
+    if i.op == "bitcast":
+        return field_chain(P, fn, i["a"], depth + 1)
+    if i.op == "getelementptr":
+        out = field_chain(P, fn, i["base"], depth + 1)
+        for e in i["path"]:
+            if "s" in e:
+                st = P.struct_layout(fn, e["s"])
+                fs = P.llvm_struct_fields(e["s"])
+                name = None
+                if st and fs and e["f"] < len(st["elems"]):
+                    off = st["elems"][e["f"]]["off"]
+                    for (n, o2, s2, t2) in fs:
+                        if o2 == off:
+                            name = "%s.%s" % (re.sub(r"^(struct|union)\.", "", e["s"]), n)
+                out.append(name or "%s.#%d" % (e["s"], e["f"]))
+        return out
+    return []
